@@ -175,3 +175,28 @@ PROPS['C14'] = {
     'outside': ['feature faster-hex on: the SIMD kernels (inline asm/intrinsics) cannot be encoded; only the crate-side preconditions are claimed (M)', 'N >= 1023 end to end (the two larger strategies): M decides their index arithmetic per strategy', 'width/fill flags (ignored by the implementation)'],
     'assumptions': ['precision <= 2N+2'],
 }
+
+PROPS['C15'] = {
+    'kani': {
+        'quick': [krun(['c15::q::'], timeout=900, bounds='N in {0,1,3}; Vec/Box<[T]> sources of length 0, N-1, N, N+1 with spare capacity 0..=2 (one harness per combination), conversion form symbolic; tracked elements; block identity for u32,u64,(); boxed constructors with symbolic salt')],
+        'thorough': [krun(['c15::'], timeout=2400, bounds='N up to 8')],
+    },
+    'functions': ['TryFrom<Vec<T>>/TryFrom<Box<[T]>> for GenericArray', 'GenericArray::{into_boxed_slice,into_vec,try_from_boxed_slice,try_from_vec,default_boxed,try_boxed_from_iter}', 'From<GenericArray> for Vec<T>/Box<[T]>', 'FromIterator for Box<GenericArray>', 'GenericSequence::generate for Box<GenericArray>', 'IntoIterator for Box<GenericArray>'],
+    'bounds': 'K: N <= 4 (thorough 8); source length, spare capacity, witness index symbolic.',
+    'outside': ['"arrays far larger than the thread\'s stack": stack depth is modelled by neither engine', 'N > 8'],
+    'assumptions': ['block identity asserted only for arrays of non-zero byte size'],
+}
+PROPS['C16'] = {
+    'kani': {
+        'quick': [krun(['c16::q::ops::', 'c16::q::ops_payload::'], flags=['--cbmc-args', '--memory-leak-check'], timeout=900,
+                       bounds='every alloc-feature operation (symbolic selector over 10 operations) x N in {0,1,3} x T in {u64,()} under Kani\'s allocator model (zero-size request and dealloc-size assertions) with --memory-leak-check; heap-payload elements'),
+                  krun(['c16::q::ops_fail::'], flags=['-Z', 'stubbing'], timeout=900,
+                       bounds='allocation failure injected nondeterministically at every alloc::alloc::alloc call (stub); handle_alloc_error stubbed as end-of-path; N in {0,1,3}')],
+        'thorough': [krun(['c16::q::ops::', 'c16::q::ops_payload::', 'c16::t::ops::', 'c16::t::ops_payload::'], flags=['--cbmc-args', '--memory-leak-check'], timeout=2400, bounds='N up to 8, more element types'),
+                     krun(['c16::q::ops_fail::', 'c16::t::ops_fail::'], flags=['-Z', 'stubbing'], timeout=2400, bounds='N up to 8')],
+    },
+    'functions': ['every function of src/impl_alloc.rs', 'box_arr! helper'],
+    'bounds': 'K: N <= 3 (thorough 8).',
+    'outside': ['alignment passed to dealloc is not compared by Kani\'s allocator model', 'panicking closures (unwinding): engine M', 'blocks allocated and freed inside Vec/Box themselves are exercised through the real std code; std\'s own pairing is otherwise trusted'],
+    'assumptions': ['stub: alloc::alloc::alloc may return null (ops_fail harnesses only)', 'stub: alloc::alloc::handle_alloc_error records that it was reached and ends the path'],
+}
